@@ -154,6 +154,123 @@ Proof.
   - right. unfold open_hosts. cbn [attempts queue push_task]. rewrite map_app, !in_app_iff. cbn. auto.
 Qed.
 
+(* ------------------------------------------------------------------ on the first page every attempt is a current one *)
+Definition pages (s : state) : list nat := map a_page (attempts s).
+Definition all_cur (s : state) : Prop := Forall (eq (page_no s)) (pages s).
+Definition pframe (s s' : state) : Prop :=
+  page_no s' = page_no s /\ exists k, pages s' = pages s ++ repeat (page_no s) k.
+
+Lemma pframe_same s s' : page_no s' = page_no s -> attempts s' = attempts s -> pframe s s'.
+Proof. intros P A. split; [exact P|]. exists 0%nat. unfold pages. rewrite A, app_nil_r. reflexivity. Qed.
+
+Lemma pframe_trans s1 s2 s3 : pframe s1 s2 -> pframe s2 s3 -> pframe s1 s3.
+Proof.
+  intros [P1 [k1 E1]] [P2 [k2 E2]]. split; [congruence|]. exists (k1 + k2)%nat.
+  rewrite E2, E1, P1, <- app_assoc, repeat_app. reflexivity.
+Qed.
+
+Lemma all_cur_pframe s s' : all_cur s -> pframe s s' -> all_cur s'.
+Proof.
+  intros A [P [k E]]. unfold all_cur. rewrite E, P. apply Forall_app. split; [exact A|].
+  apply Forall_forall. intros x Hx. apply repeat_spec in Hx. auto.
+Qed.
+
+Lemma pages_mark_done i l : map a_page (mark_done i l) = map a_page l.
+Proof. revert i. induction l as [|a l IH]; intros [|i]; cbn; auto. rewrite IH. reflexivity. Qed.
+
+Lemma query_pframe s h m cz s' ev ok : query s h m cz = (s', ev, ok) -> pframe s s'.
+Proof.
+  rewrite query_eq. destruct (reason (pool_of s h)); intros H; inversion H; subst.
+  - apply pframe_same; reflexivity.
+  - split; [reflexivity|]. exists 1%nat. unfold pages. cbn [attempts add_attempt]. rewrite map_app. reflexivity.
+Qed.
+
+Lemma send_request_pframe s b s' ev : send_request s b = (s', ev) -> pframe s s'.
+Proof.
+  intros W. pose proof (walk_frame_ok _ _ _ _ _ W) as F. apply walk_walked in W.
+  split; [apply F|].
+  destruct W as [sk h rest Hp Hsk Hh Hplan Hcons Hev Hatt Hexc Harm | Hsk Hplan Hcons Hev Hatt Hexc Harm]; unfold pages; rewrite Hatt.
+  - exists 1%nat. rewrite map_app. reflexivity.
+  - exists 0%nat. rewrite app_nil_r. reflexivity.
+Qed.
+
+Lemma qon_pframe s h m cz s' ev : query_or_next s h m cz = (s', ev) -> pframe s s'.
+Proof.
+  unfold query_or_next. intros H. destruct (query s h m cz) as [[s1 ev1] ok] eqn:Q. apply query_pframe in Q.
+  destruct ok; [inversion H; subst; exact Q|].
+  destruct (send_request s1 true) as [s2 ev2] eqn:W. inversion H; subst.
+  eapply pframe_trans; [exact Q|eapply send_request_pframe; eauto].
+Qed.
+
+Lemma sbo_pframe s s' : same_but_outcome s s' -> pframe s s'.
+Proof. intros F. destruct F. apply pframe_same; assumption. Qed.
+
+Lemma set_result_pframe c s h r s' ev : set_result c s h r = (s', ev) -> pframe s s'.
+Proof.
+  intros H. destruct r; cbn [set_result] in H;
+    try (inversion H; subst; first [apply sbo_pframe, fail_with_same | apply sbo_pframe, finish_with_same
+                                   | apply sbo_pframe, finish_rows_same]).
+  - destruct (pol c _ k tag _ _) as [d dcl]. unfold handle_decision in H. inversion H; subst; clear H.
+    destruct d; try (apply pframe_same; reflexivity).
+    + apply (pframe_trans s (fail_with (tick_consult s) (XResp k tag))); [|apply pframe_same; reflexivity].
+      exact (sbo_pframe (tick_consult s) _ (fail_with_same _ _)).
+    + apply (pframe_trans s (finish_with (tick_consult s) FNone)); [|apply pframe_same; reflexivity].
+      exact (sbo_pframe (tick_consult s) _ (finish_with_same _ _)).
+  - unfold unprepared in H.
+    assert (G : forall ps, unprep_go c s h ps = (s', ev) -> pframe s s').
+    { intros [[pid qs] ks0] G. unfold unprep_go in G.
+      destruct (negb (uses_ks c) && is_some ks0 && negb (opt_eqb (conn_ks s) ks0)); inversion G; subst;
+        [apply sbo_pframe, fail_with_same|apply pframe_same; reflexivity]. }
+    destruct (fut_ps c) as [[[pid pqs] pks]|].
+    + destruct (negb (pid =? id)); [inversion H; subst; apply sbo_pframe, fail_with_same|].
+      destruct (lookup (known c) id); eapply G; eauto.
+    + destruct (lookup (known c) id); [eapply G; eauto|inversion H; subst; apply sbo_pframe, fail_with_same].
+Qed.
+
+Lemma after_prepare_pframe c s h r s' ev : after_prepare c s h r = (s', ev) -> pframe s s'.
+Proof.
+  unfold after_prepare. intros H.
+  destruct (is_some (fin_exc s)); [inversion H; subst; apply pframe_same; reflexivity|].
+  destruct r; try (inversion H; subst; apply sbo_pframe, fail_with_same).
+  - destruct (fut_ps c) as [[[pid pqs] pks]|].
+    + destruct (negb (pid =? id)); [inversion H; subst; apply sbo_pframe, fail_with_same|eapply qon_pframe; eauto].
+    + eapply qon_pframe; eauto.
+  - destruct (is_conn_kind k); [|inversion H; subst; apply sbo_pframe, fail_with_same].
+    destruct (send_request (set_err s h (EResp k tag)) true) as [s2 ev2] eqn:W. inversion H; subst.
+    apply send_request_pframe in W. exact W.
+Qed.
+
+Lemma step_pframe c s o s' ev : is_next_page o = false -> step c s o = (s', ev) -> pframe s s'.
+Proof.
+  intros NP H. destruct o as [|i r|k| |h0 p|k|pp]; cbn [step] in H; [| | | | | |discriminate].
+  - eapply send_request_pframe; eauto.
+  - destruct (nth_error (attempts s) i) as [a|]; [|inversion H; subst; apply pframe_same; reflexivity].
+    destruct (a_done a); [inversion H; subst; apply pframe_same; reflexivity|].
+    assert (P0 : pframe s (set_attempts s (mark_done i (attempts s)))).
+    { split; [reflexivity|]. exists 0%nat. unfold pages. cbn [attempts set_attempts]. rewrite pages_mark_done, app_nil_r. reflexivity. }
+    destruct (a_prep a); [inversion H; subst; eapply pframe_trans; [exact P0|apply pframe_same; reflexivity]|].
+    destruct (Nat.eqb (a_page a) (page_no s)); [|inversion H; subst; exact P0].
+    eapply pframe_trans; [exact P0|eapply set_result_pframe; eauto].
+  - destruct (nth_error (queue s) k) as [t|]; [|inversion H; subst; apply pframe_same; reflexivity].
+    apply (pframe_trans s (set_queue s (remove_nth k (queue s)))); [apply pframe_same; reflexivity|].
+    destruct t as [reuse h|h qs ks0|h r]; cbn [run_task] in H.
+    + destruct (is_some (fin_exc (set_queue s (remove_nth k (queue s))))); [inversion H; subst; apply pframe_same; reflexivity|].
+      destruct reuse; [eapply qon_pframe; eauto|eapply send_request_pframe; eauto].
+    + eapply qon_pframe; eauto.
+    + eapply after_prepare_pframe; eauto.
+  - unfold spec_fire in H.
+    destruct (negb (spec_armed s)); [inversion H; subst; apply pframe_same; reflexivity|].
+    destruct (completed (set_spec s false (spec_left s))); [inversion H; subst; apply pframe_same; reflexivity|].
+    destruct (attempts (set_spec s false (spec_left s))) eqn:A; [inversion H; subst; apply pframe_same; reflexivity|].
+    destruct (send_request (set_spec s false (spec_left s)) false) as [s1 ev1] eqn:W. inversion H; subst.
+    apply send_request_pframe in W.
+    apply (pframe_trans s (set_spec s false (spec_left s))); [apply pframe_same; reflexivity|].
+    eapply pframe_trans; [exact W|]. unfold start_timer.
+    destruct (spec_armed s1); [apply pframe_same; reflexivity|]. destruct (0 <? spec_left s1); apply pframe_same; reflexivity.
+  - inversion H; subst. apply pframe_same; reflexivity.
+  - inversion H; subst. apply pframe_same; reflexivity.
+Qed.
+
 (* what a step may do to the coverage invariant *)
 Definition finishes_otherwise (s s' : state) : Prop :=
   (fin_res s' <> fin_res s /\ fin_exc s' = fin_exc s) \/ (exists x, fin_exc s' = Some x /\ forall e, x <> XNoHost e).
@@ -165,9 +282,7 @@ Lemma set_result_J c s0 h r s' ev : Jx s0 [h] -> fin_res s0 = None -> fin_exc s0
   Jx s' [] \/ finishes_otherwise s0 s'.
 Proof.
   intros J Hres Hexc H. pose proof (not_completed s0 Hres Hexc) as NC. destruct r; cbn [set_result] in H;
-    unfold fail_with, finish_with in H;
-    repeat match type of H with context [completed (set_paging s0 ?b)] => change (completed (set_paging s0 b)) with (completed s0) in H end;
-    rewrite ?NC in H;
+    unfold fail_with, finish_with, finish_rows in H; rewrite ?NC in H;
     try (inversion H; subst; fin_other);
     try (inversion H; subst; fin_res_changed Hres).
   - destruct (pol c (nconsult s0) k tag (retries s0) (if request_error_kind k then msg_cl s0 else None)) as [d dcl].
@@ -235,10 +350,10 @@ Proof.
     unfold send_request in W. eapply Jx_resolve; [eapply Jx_walk; eauto|eapply covered_walk; eauto].
 Qed.
 
-Theorem step_J c s o s' ev : is_next_page o = false -> Jx s [] -> fin_res s = None -> fin_exc s = None -> step c s o = (s', ev) ->
+Theorem step_J c s o s' ev : is_next_page o = false -> all_cur s -> Jx s [] -> fin_res s = None -> fin_exc s = None -> step c s o = (s', ev) ->
   Jx s' [] \/ finishes_otherwise s s'.
 Proof.
-  intros NP J Hres Hexc H. destruct o as [|i r|k| |h0 p|k|pp]; cbn [step] in H; [| | | | | |discriminate].
+  intros NP AC J Hres Hexc H. destruct o as [|i r|k| |h0 p|k|pp]; cbn [step] in H; [| | | | | |discriminate].
   - left. unfold send_request in H. eapply Jx_walk; eauto.
   - destruct (nth_error (attempts s) i) as [a|] eqn:N; [|inversion H; subst; left; exact J].
     destruct (a_done a); [inversion H; subst; left; exact J|].
@@ -247,7 +362,9 @@ Proof.
     + inversion H; subst. left.
       destruct (Jx_push _ [a_host a] (TAfterPrepare (a_host a) r) (fun _ _ E => ltac:(discriminate)) J0) as [Ja Jb].
       eapply Jx_resolve; eauto.
-    + eapply set_result_J in H; eauto.
+    + destruct (Nat.eqb (a_page a) (page_no s)) eqn:Pg; [eapply set_result_J in H; eauto|].
+      exfalso. apply Nat.eqb_neq in Pg. apply Pg. symmetry.
+      unfold all_cur, pages in AC. rewrite Forall_forall in AC. apply AC. apply in_map. eapply nth_error_In; eauto.
   - destruct (nth_error (queue s) k) as [t|] eqn:N; [|inversion H; subst; left; exact J].
     pose proof (Jx_deq s k t N J) as J0.
     assert (Q : forall s1 h m cz s2 e2, Jx s1 [h] -> query_or_next s1 h m cz = (s2, e2) -> Jx s2 []).
@@ -291,6 +408,9 @@ Qed.
 Lemma finish_res_keep s0 r : res_keep s0 (finish_with s0 r).
 Proof. destruct (finish_with_res s0 r) as [E _]. destruct (completed s0); [left; exact E|right; eexists; exact E]. Qed.
 
+Lemma finish_rows_keep s0 b : res_keep s0 (finish_rows s0 b).
+Proof. destruct (finish_rows_res s0 b) as [E _]. destruct (completed s0); [left; exact E|right; eexists; exact E]. Qed.
+
 Lemma fail_res_keep s0 x : res_keep s0 (fail_with s0 x).
 Proof. left. apply fail_with_exc. Qed.
 
@@ -301,11 +421,11 @@ Proof.
   - destruct (nth_error (attempts s) i) as [a|]; [|inversion H; subst; left; reflexivity].
     destruct (a_done a); [inversion H; subst; left; reflexivity|].
     destruct (a_prep a); [inversion H; subst; left; reflexivity|].
+    destruct (Nat.eqb (a_page a) (page_no s)); [|inversion H; subst; left; reflexivity].
     set (s0 := set_attempts s (mark_done i (attempts s))) in *.
     change (res_keep s0 s').
     destruct r; cbn [set_result] in H;
-      try (inversion H; subst; first [apply finish_res_keep | apply fail_res_keep
-                                     | exact (finish_res_keep (set_paging s0 _) _)]).
+      try (inversion H; subst; first [apply finish_res_keep | apply fail_res_keep | apply finish_rows_keep]).
     + destruct (pol c _ k tag _ _) as [d dcl]. unfold handle_decision in H. inversion H; subst.
       destruct d; try (left; reflexivity).
       * exact (fail_res_keep (tick_consult s0) (XResp k tag)).
@@ -344,16 +464,16 @@ Proof.
   - inversion H; subst. left; reflexivity.
 Qed.
 
-Definition Good (s : state) : Prop := fin_res s = None -> fin_exc s = None -> Jx s [].
+Definition Good (s : state) : Prop := all_cur s /\ (fin_res s = None -> fin_exc s = None -> Jx s []).
 
 Lemma good_step c s o s' ev : is_next_page o = false -> Good s -> step c s o = (s', ev) -> Good s'.
 Proof.
-  intros NP G H R' E'.
+  intros NP [AC G] H. split; [eapply all_cur_pframe; [exact AC|eapply step_pframe; eauto]|]. intros R' E'.
   assert (R : fin_res s = None).
   { destruct (step_res_keep _ _ _ _ _ NP H) as [K|[r K]]; congruence. }
   assert (E : fin_exc s = None).
   { destruct (step_exc _ _ _ _ _ NP H) as [K|[(x & K & _)|(K & _)]]; congruence. }
-  destruct (step_J _ _ _ _ _ NP (G R E) R E H) as [J|[[N _]|(x & K & _)]]; [exact J|congruence|congruence].
+  destruct (step_J _ _ _ _ _ NP AC (G R E) R E H) as [J|[[N _]|(x & K & _)]]; [exact J|congruence|congruence].
 Qed.
 
 Lemma good_exec c : forall ops s s' ev, no_page ops = true -> Good s -> exec c s ops = (s', ev) -> Good s'.
@@ -367,8 +487,8 @@ Qed.
 
 Lemma good_init lb target pl cl idem hasp maxa ks : Good (init lb target pl cl idem hasp maxa ks).
 Proof.
-  intros _ _. unfold init, start_timer. cbn [spec_armed spec_left].
-  destruct (0 <? spec_gate idem hasp maxa); (split; [intros h []|intros reuse h []]).
+  unfold init, start_timer. cbn [spec_armed spec_left].
+  destruct (0 <? spec_gate idem hasp maxa); (split; [constructor|intros _ _; split; [intros h []|intros reuse h []]]).
 Qed.
 
 (* the step that raises NoHostAvailable out of a request without outcome: every host of the plan is listed in the error
@@ -380,13 +500,13 @@ Lemma exhaustion_covers c lb target pl cl idem hasp maxa ks ops s evs o s' ev er
   forall h, In h (make_plan lb target) -> In h (keys errs) \/ In h (open_hosts s').
 Proof.
   intros Np NP X R E S N h Hh.
-  pose proof (good_exec c ops _ _ _ Np (good_init lb target pl cl idem hasp maxa ks) X) as G.
+  pose proof (good_exec c ops _ _ _ Np (good_init lb target pl cl idem hasp maxa ks) X) as [AC G].
   destruct (nohost_only_when_exhausted _ _ _ _ _ _ S N) as [K|[-> P]]; [congruence|].
   pose proof (history_inv_first_page c lb target pl cl idem hasp maxa ks ops s evs Np X) as HI.
   pose proof (step_hinv c _ _ _ _ _ _ HI S) as (I1 & _ & _).
   assert (Ep : plan_after c o s (make_plan lb target) = make_plan lb target) by (destruct o; try reflexivity; discriminate).
   rewrite Ep, P, app_nil_r in I1.
-  destruct (step_J _ _ _ _ _ NP (G R E) R E S) as [[J1 _]|[[_ K]|(x & K & Nx)]].
+  destruct (step_J _ _ _ _ _ NP AC (G R E) R E S) as [[J1 _]|[[_ K]|(x & K & Nx)]].
   - rewrite <- I1 in Hh. destruct (J1 h Hh) as [[]|C]. exact C.
   - congruence.
   - exfalso. rewrite K in N. inversion N; subst. eapply Nx; reflexivity.
